@@ -15,6 +15,7 @@ Observed(ps, opt) == IF \E i \in 1..Len(ps) : ps[i][1] = opt THEN ps[CHOOSE i \i
 Common(r, e) ==
   IF e = "skip" THEN "skip"                      \* not decided by the documentation: nothing is demanded
   ELSE IF r.status = "other" \/ r.status_kw = "other" THEN "exception"
+  ELSE IF e = "marker" THEN (IF r.status # r.status_kw \/ ~r.kwargs_equal THEN "kwargs" ELSE "ok")   \* refused or accepted
   ELSE IF e = "accept" /\ (r.status # "accept" \/ r.status_kw # "accept") THEN "rejects"
   ELSE IF e = "reject" /\ (r.status # "reject" \/ r.status_kw # "reject") THEN "accepts"
   ELSE IF r.status # r.status_kw \/ ~r.kwargs_equal THEN "kwargs"
@@ -49,7 +50,8 @@ Clause(r) ==
        ELSE IF ~r.canon_ok \/ (e = "accept" /\ r.canon # CanonListAnswers(r.cls, r.la)) THEN "canonical"
        ELSE IF ~r.idempotent THEN "idempotent" ELSE "ok"
   ELSE LET e == IF r.ev = "lgroup" THEN LGExpect(r) ELSE IF r.ev = "nested" THEN NestedExpect(r.chain)
-                 ELSE IF r.ev = "interval" THEN IntervalExpect(r) ELSE SquareExpect(r)
+                 ELSE IF r.ev = "interval" THEN (IF r.sub = "none" /\ IntervalExpect(r) = "accept" THEN "marker" ELSE IntervalExpect(r))
+                 ELSE SquareExpect(r)
            c == Common(r, e) IN
        IF c = "skip" THEN "ok" ELSE IF c # "ok" THEN c
        ELSE IF r.status # "accept" THEN "ok"
